@@ -88,6 +88,23 @@ def first_kind(step):
     return None
 
 
+def build_rep(x_cmds):
+    """the replay the editor records for X, from the commands X handed to LineBuf::exec_cmd"""
+    if not x_cmds or any(x is None for x in x_cmds):
+        return None
+    if x_cmds[0]["kind"] in ("insertMode", "change", "lineBreak", "replaceMode") and x_cmds[-1]["kind"] == "normalMode" and len(x_cmds) >= 2:
+        entry, exit_ = x_cmds[0], x_cmds[-1]
+        reps = max(entry["vcount"], 1)
+        body = x_cmds[1:-1]
+        typed = body[:len(body) // reps] if reps > 1 and len(body) % reps == 0 else body
+        return {"mode": [entry] + typed + [exit_], "reps": reps}
+    if len(x_cmds) == 1 and x_cmds[0]["repeatable"]:
+        return {"single": x_cmds[0]}
+    if len(x_cmds) >= 1 and x_cmds[-1]["repeatable"]:
+        return {"single": x_cmds[-1]}
+    return None
+
+
 def with_count(x, base, cnt, session):
     if not cnt:
         return x
@@ -167,6 +184,13 @@ def run(tier, seed, replay=None):
                 elif sa1 != sa0:
                     diff = [k for k in sa0 if sa0[k] != sa1[k]]
                     R.violation("'.' of %r where its motion fails must do nothing, it changed %s: %s -> %s" % (c["x"], diff, canon({k: sa0[k] for k in diff})[:160], canon({k: sa1[k] for k in diff})[:160]), c)
+                elif gone == 0:
+                    # the repeat machine with the editor's verdict "the motion fails here" (taken from the retyped run)
+                    rep = build_rep(lb_cmds(xa["steps"][1 + npre]))
+                    between_cmds = [x for k in range(len(c["between"])) for x in lb_cmds(xa["steps"][1 + npre + 1 + k])]
+                    if rep is not None and not any(x and x["repeatable"] for x in between_cmds):
+                        mreqs.append({"op": "dot", "rep": rep, "count": int(c["count"] or 1), "fails": True})
+                        mmeta.append((c, [strip(x) for x in lb_cmds(xa["steps"][first_dot]) if x]))
                 continue
         if a != b:
             diff = [k for k in a if a[k] != b[k]]
@@ -189,20 +213,11 @@ def run(tier, seed, replay=None):
         if any(x and x["repeatable"] for x in between_cmds):
             R.count("between_has_repeatable")
             continue
-        if x_cmds[0]["kind"] in ("insertMode", "change", "lineBreak", "replaceMode") and x_cmds[-1]["kind"] == "normalMode" and len(x_cmds) >= 2:
-            entry, exit_ = x_cmds[0], x_cmds[-1]
-            reps = max(entry["vcount"], 1) if not (entry["kind"] == "change" and entry.get("motion")) else max(entry["vcount"], 1)
-            body = x_cmds[1:-1]
-            typed = body[:len(body) // reps] if reps > 1 and len(body) % reps == 0 else body
-            rep = {"mode": [entry] + typed + [exit_], "reps": reps}
-        elif len(x_cmds) == 1 and x_cmds[0]["repeatable"]:
-            rep = {"single": x_cmds[0]}
-        elif len(x_cmds) >= 1 and x_cmds[-1]["repeatable"]:
-            rep = {"single": x_cmds[-1]}
-        else:
+        rep = build_rep(x_cmds)
+        if rep is None:
             R.count("x_not_repeatable_here")
             continue
-        mreqs.append({"op": "dot", "rep": rep, "count": int(c["count"] or 1)})
+        mreqs.append({"op": "dot", "rep": rep, "count": int(c["count"] or 1), "fails": False})
         mmeta.append((c, [strip(x) for x in lb_cmds(xa["steps"][first_dot]) if x]))
     for (c, observed), m in zip(mmeta, batch(model_driver, mreqs)):
         if "execs" not in m:
